@@ -589,6 +589,28 @@ class Alg:
             elif at.startswith('inv(') and at in self.inverse:
                 me = self._r(self.p_atom(at))
                 r = self.neg(self.mul(self.mul(me, me), d_atom(self.inverse[at])))
+            elif at in getattr(self, 'func_arg', {}):
+                fn_, args_ = self.func_arg[at]
+                one = self.const(1)
+                if fn_ == 'arctan2' and len(args_) == 2:
+                    y_, x_ = args_
+                    den = self.add(self.mul(x_, x_), self.mul(y_, y_))
+                    r = self.div(self.sub(self.mul(x_, self.diff(y_, x)),
+                                          self.mul(y_, self.diff(x_, x))), den)
+                elif fn_ == 'arctan' and len(args_) == 1:
+                    r = self.div(self.diff(args_[0], x),
+                                 self.add(one, self.mul(args_[0], args_[0])))
+                elif fn_ in ('arcsin', 'arccos') and len(args_) == 1:
+                    r = self.div(self.diff(args_[0], x),
+                                 self.sqrt(self.sub(one, self.mul(args_[0], args_[0]))))
+                    if fn_ == 'arccos':
+                        r = self.neg(r)
+                elif fn_ == 'exp' and len(args_) == 1:
+                    r = self.mul(self._r(self.p_atom(at)), self.diff(args_[0], x))
+                elif fn_ == 'log' and len(args_) == 1:
+                    r = self.div(self.diff(args_[0], x), args_[0])
+                else:
+                    raise ValueError('derivative of %s unknown' % fn_)
             else:
                 r = self.const(0)
             cache[at] = r
